@@ -2,6 +2,8 @@ import sys, os
 sys.path.insert(0, os.path.join(os.path.dirname(os.path.abspath(__file__)), '..', 'engine'))
 from driver import *
 sys.path.insert(0, os.path.dirname(os.path.abspath(__file__)))
+import common_jobs
+sys.path.insert(0, os.path.dirname(os.path.abspath(__file__)))
 from cpu_common import FLAT, BASE_OPS
 
 
@@ -23,6 +25,7 @@ def main(tier):
     ops = quick_ops if tier == 'quick' else BASE_OPS
     jobs2 = [('cpu', 'VerifInstrOam', {'op': o, 'cb': 0}) for o in ops] + [('cpu', 'VerifDispatchOam', {})]
     jobs2 += [('cpu', 'VerifInstrOam', {'op': o, 'cb': 1}) for o in ([0x06, 0x46, 0x86, 0xc6] if tier == 'quick' else range(256))]
+    common_jobs.run_lcd_inv(ck)
     ck.run(jobs, timeout_ms=600000, setup=stub_render)
     ck.run(jobs2, timeout_ms=600000, only=r'^(terminates|oam-byte-unchanged|window-closed-flags-clear|ppu-cursor-untouched)$')
     ck.stubs_used.append('memory.Mapper -> flat 64 KiB array (stubs/flatmapper) for part C; the routing of FE00-FE9F to OAM.Read/Write is C06/C07')
